@@ -161,6 +161,87 @@ Section Layout.
 End Layout.
 
 (* ---- the side conditions as boolean checks on a transition table ---- *)
+(* ---- a whole skipped lexeme (a comment) inserted between two lexemes ---- *)
+Section SkipLexeme.
+  Variable adv : N -> N -> option N.
+  Variable cls : N -> cls_t.
+  Variable v : list N.       (* the inserted lexeme *)
+  Variable f : N.            (* the state it ends in *)
+
+  Hypothesis v_nonempty : v <> [].
+  Hypothesis f_skip : cls f = CSkip.
+
+  Notation lexes := (lexes adv cls).
+  Notation munch := (munch adv).
+
+  (* in front of a text at which the scanner stops exactly after v *)
+  Lemma skip_lexeme_in_front p r ts e : lexes p r ts e -> munch v r f ->
+    forall p', exists ts' e', lexes p' (v ++ r) ts' e' /\ proj ts' = proj ts /\ ekind e' = ekind e.
+  Proof.
+    intros H Hm p'.
+    destruct (lexes_reposition adv cls _ _ _ _ H (pos_adv p' v)) as [ts' [e' [H1 [H2 H3]]]].
+    exists ts', e'. split; [|split; assumption].
+    eapply L_skip with (q := f); try eassumption.
+    destruct v; [contradiction | discriminate].
+  Qed.
+
+  (* after a lexeme that the first character of v cannot extend *)
+  Theorem skip_lexeme_after_lexeme p u r q ts e :
+    lexes p (u ++ r) ts e -> munch u r q -> u <> [] -> cls q <> CErr ->
+    adv q (hd 0 v) = None -> munch v r f ->
+    exists ts' e', lexes p (u ++ v ++ r) ts' e' /\ proj ts' = proj ts /\ ekind e' = ekind e.
+  Proof.
+    intros H Hm Hu Hq Hb Hv.
+    assert (Hm' : munch u (v ++ r) q).
+    { destruct Hm as [Hrun _]. split; [exact Hrun|]. destruct v; [contradiction | exact Hb]. }
+    inversion H; subst.
+    - exfalso. destruct u; [contradiction | discriminate].
+    - destruct (munch_unique adv _ _ _ _ _ _ H0 H2 Hm) as [-> [-> ->]].
+      destruct (skip_lexeme_in_front _ _ _ _ H6 Hv (pos_adv p u)) as [ts' [e' [G1 [G2 G3]]]].
+      exists ({| t_kind := k; t_lexeme := apply_mode m u; t_pos := p |} :: ts'), e'.
+      split; [|split; [simpl; rewrite G2; reflexivity | exact G3]].
+      eapply L_tok with (q := q); try eassumption. destruct u; [contradiction | discriminate].
+    - destruct (munch_unique adv _ _ _ _ _ _ H0 H2 Hm) as [-> [-> ->]].
+      destruct (skip_lexeme_in_front _ _ _ _ H6 Hv (pos_adv p u)) as [ts' [e' [G1 [G2 G3]]]].
+      exists ts', e'. split; [|split; assumption].
+      eapply L_skip with (q := q); try eassumption. destruct u; [contradiction | discriminate].
+    - destruct (munch_unique adv _ _ _ _ _ _ H0 H2 Hm) as [-> [-> ->]]. contradiction.
+  Qed.
+
+  (* directly after ANY token of the text *)
+  Inductive after_token_s : list N -> list N -> Prop :=
+  | ATS_here u r q k m : munch u r q -> u <> [] -> cls q = CTok k m -> adv q (hd 0 v) = None -> munch v r f ->
+                         after_token_s (u ++ r) (u ++ v ++ r)
+  | ATS_later u r r' q : munch u r q -> u <> [] -> cls q <> CErr -> after_token_s r r' -> after_token_s (u ++ r) (u ++ r').
+
+  Lemma after_token_s_head t t' : after_token_s t t' -> exists c t1 t1', t = c :: t1 /\ t' = c :: t1'.
+  Proof.
+    intros H. destruct H as [u r q k m _ Hu _ _ _|u r r' q _ Hu _ _]; destruct u as [|c u']; try contradiction; simpl; eauto.
+  Qed.
+
+  Theorem skip_lexeme_after_a_token t t' : after_token_s t t' ->
+    forall p ts e, lexes p t ts e -> exists ts' e', lexes p t' ts' e' /\ proj ts' = proj ts /\ ekind e' = ekind e.
+  Proof.
+    induction 1 as [u r q k m Hm Hu Hc Hb Hv|u r r' q Hm Hu Hc Hins IH]; intros p ts e Hl.
+    - apply (skip_lexeme_after_lexeme p u r q ts e Hl Hm Hu); [rewrite Hc; discriminate | exact Hb | exact Hv].
+    - assert (Hm' : munch u r' q).
+      { destruct Hm as [Hrun Hdead]. split; [exact Hrun|].
+        destruct (after_token_s_head _ _ Hins) as [c [t1 [t1' [-> ->]]]]. exact Hdead. }
+      inversion Hl; subst.
+      + exfalso. destruct u; [contradiction | discriminate].
+      + destruct (munch_unique adv _ _ _ _ _ _ H H1 Hm) as [-> [-> ->]].
+        destruct (IH _ _ _ H5) as [ts' [e' [G1 [G2 G3]]]].
+        exists ({| t_kind := k; t_lexeme := apply_mode m u; t_pos := p |} :: ts'), e'.
+        split; [|split; [simpl; rewrite G2; reflexivity | exact G3]].
+        eapply L_tok with (q := q); try eassumption. destruct u; [contradiction | discriminate].
+      + destruct (munch_unique adv _ _ _ _ _ _ H H1 Hm) as [-> [-> ->]].
+        destruct (IH _ _ _ H5) as [ts' [e' [G1 [G2 G3]]]].
+        exists ts', e'. split; [|split; assumption].
+        eapply L_skip with (q := q); try eassumption. destruct u; [contradiction | discriminate].
+      + destruct (munch_unique adv _ _ _ _ _ _ H H1 Hm) as [-> [-> ->]]. contradiction.
+  Qed.
+End SkipLexeme.
+
 Definition opt_is (o : option N) (x : N) : bool := match o with Some y => y =? x | None => false end.
 Definition opt_none (o : option N) : bool := match o with None => true | Some _ => false end.
 
@@ -206,4 +287,61 @@ Proof.
   destruct (step_edge d q b x E) as [e [Hin [Hf _]]].
   unfold tokens_dead_ok in Hok. rewrite forallb_forall in Hok. specialize (Hok e Hin).
   rewrite Hf, Hc, E in Hok. discriminate Hok.
+Qed.
+
+(* a state without outgoing transitions: the scanner stops there whatever follows *)
+Definition final_closed_ok (d : dfa) (f : N) : bool :=
+  forallb (fun e => negb (e_from e =? f)) (d_edges d).
+
+Lemma final_closed_ok_sound d f : final_closed_ok d f = true -> forall c, step d f c = None.
+Proof.
+  intros H c. destruct (step d f c) as [x|] eqn:E; [|reflexivity].
+  destruct (step_edge d f c x E) as [e [Hin [Hf _]]].
+  unfold final_closed_ok in H. rewrite forallb_forall in H. specialize (H e Hin).
+  rewrite Hf, N.eqb_refl in H. discriminate.
+Qed.
+
+(* whatever follows a lexeme that ends in such a state, the scanner stops exactly after it *)
+Lemma closed_munch d f v r : final_closed_ok d f = true -> runq (step d) 0 v = Some f -> munch (step d) v r f.
+Proof.
+  intros H Hr. split; [exact Hr|]. destruct r as [|c r]; [exact I|]. apply (final_closed_ok_sound d f H).
+Qed.
+
+(* a set S of states that can only be entered from the start state by the character b (and is never left towards the start
+   state): every text that ends in S begins with b *)
+Definition memq (q : N) (S : list N) : bool := existsb (N.eqb q) S.
+Definition entered_by (d : dfa) (S : list N) (b : N) : bool :=
+  forallb (fun e => (negb (memq (e_to e) S) || memq (e_from e) S || ((e_from e =? 0) && (e_lo e =? b) && (e_hi e =? b)))
+                    && negb (e_to e =? 0)) (d_edges d).
+
+Lemma entered_by_step d S b q c x : entered_by d S b = true -> step d q c = Some x ->
+  x <> 0 /\ (memq x S = true -> memq q S = true \/ (q = 0 /\ c = b)).
+Proof.
+  intros H Hs. destruct (step_edge d q c x Hs) as [e [Hin [Hf [Hlo [Hhi Ht]]]]].
+  unfold entered_by in H. rewrite forallb_forall in H. specialize (H e Hin).
+  apply andb_prop in H as [H1 H2]. rewrite Ht in *. rewrite Hf in *. split.
+  - intros ->. rewrite N.eqb_refl in H2. discriminate.
+  - intros Hx. rewrite Hx in H1. simpl in H1. apply orb_prop in H1 as [H1|H1]; [left; exact H1|].
+    right. apply andb_prop in H1 as [H1 H5]. apply andb_prop in H1 as [H3 H4].
+    apply N.eqb_eq in H3, H4, H5. split; [exact H3 | lia].
+Qed.
+
+Lemma entered_by_sound d S b : entered_by d S b = true -> memq 0 S = false ->
+  forall v q, runq (step d) 0 v = Some q -> memq q S = true -> hd 0 v = b.
+Proof.
+  intros H H0 v q Hr Hq. destruct v as [|c v'].
+  - unfold runq in Hr. simpl in Hr. injection Hr as <-. congruence.
+  - simpl. unfold runq in Hr. simpl in Hr. destruct (step d 0 c) as [q1|] eqn:E1.
+    2:{ rewrite fold_oadv_none in Hr. discriminate. }
+    destruct (N.eq_dec c b) as [->|Hc]; [reflexivity|]. exfalso.
+    destruct (entered_by_step d S b 0 c q1 H E1) as [Hn1 Hi1].
+    assert (Hq1 : memq q1 S = false).
+    { destruct (memq q1 S) eqn:Em; [|reflexivity]. destruct (Hi1 eq_refl) as [Hc0|[_ Hcb]]; [congruence | contradiction]. }
+    clear E1 Hi1. revert q1 Hn1 Hq1 Hr. induction v' as [|c2 v2 IH]; intros q1 Hn1 Hq1 Hr; simpl in Hr.
+    + injection Hr as <-. congruence.
+    + destruct (step d q1 c2) as [q2|] eqn:E2.
+      2:{ rewrite fold_oadv_none in Hr. discriminate. }
+      destruct (entered_by_step d S b q1 c2 q2 H E2) as [Hn2 Hi2].
+      apply (IH q2 Hn2); [|exact Hr].
+      destruct (memq q2 S) eqn:Em; [|reflexivity]. destruct (Hi2 eq_refl) as [Hc0|[Hc0 _]]; congruence.
 Qed.
